@@ -162,7 +162,10 @@ let () =
              | Trap s -> "cinit T" ^ string_of_n s)
         | ["c"; n; orc] ->
             (match !cst with None -> "c nostate" | Some s ->
-              show_cret "c" (x_compress s (firstN !xrest (n_of_string n)) (parse_corc orc)))
+              (* performance clamp justified by theorem compressStream_reads_at_most_maxFrameSize: the model looks at the
+                 first maxFrameSize bytes of the offered input only *)
+              let k = min (int_of_string n) (int_of_n s.c_mfs) in
+              show_cret "c" (x_compress s (firstN !xrest (n_of_int k)) (parse_corc orc)))
         | ["e"; orc] -> (match !cst with None -> "e nostate" | Some s -> show_cret "e" (x_end_frame s (parse_corc orc)))
         | ["s"; avail; orc] -> (match !cst with None -> "s nostate" | Some s -> show_cret "s" (x_end_stream s (n_of_string avail) (parse_corc orc)))
         | ["clog"] -> (match !cst with None -> "clog nostate" | Some s ->
